@@ -69,6 +69,14 @@ class _Return(Exception):
         self.v = v
 
 
+class _Continue(Exception):
+    pass
+
+
+class _Break(Exception):
+    pass
+
+
 HOST_TYPES = {"int": int, "str": str, "bool": bool, "float": float, "list": list, "dict": dict,
               "tuple": tuple, "type": type, "object": object, "set": set}
 
@@ -103,6 +111,11 @@ class Interp:
                     nm = a.asname or a.name.split(".")[0]
                     if a.name in ("re", "keyword"):
                         self.globals[nm] = ModuleRef(a.name)
+                    elif a.name == "itertools":
+                        self.globals[nm] = _itertools_module(self)
+                    elif a.name == "json":
+                        import json as _json
+                        self.globals[nm] = ModuleRef("json", attrs={"dumps": ("host", _json.dumps), "loads": ("host", _json.loads)})
             elif isinstance(st, (ast.Assign, ast.AnnAssign)):
                 tgt = st.targets[0] if isinstance(st, ast.Assign) else st.target
                 if not isinstance(tgt, ast.Name) or st.value is None:
@@ -183,10 +196,34 @@ class Interp:
                 self.exec_block(st.orelse, env)
         elif isinstance(st, ast.For):
             it = self.eval(st.iter, env)
+            broke = False
             for x in self.iterate(it):
                 self.assign(st.target, x, env)
-                self.exec_block(st.body, env)
-            self.exec_block(st.orelse, env)
+                try:
+                    self.exec_block(st.body, env)
+                except _Continue:
+                    continue
+                except _Break:
+                    broke = True
+                    break
+            if not broke:
+                self.exec_block(st.orelse, env)
+        elif isinstance(st, ast.While):
+            n_iter = 0
+            while self.truth(self.eval(st.test, env)):
+                n_iter += 1
+                if n_iter > 100000:
+                    raise AnalysisError(f"{self.name}:{st.lineno}: while loop does not terminate within the budget")
+                try:
+                    self.exec_block(st.body, env)
+                except _Continue:
+                    continue
+                except _Break:
+                    break
+        elif isinstance(st, ast.Continue):
+            raise _Continue()
+        elif isinstance(st, ast.Break):
+            raise _Break()
         elif isinstance(st, ast.Raise):
             if st.exc is None:
                 raise Raised("reraise", ())
@@ -205,6 +242,19 @@ class Interp:
             return
         elif isinstance(st, ast.FunctionDef):
             env[st.name] = Closure(st, env, self)
+        elif isinstance(st, ast.Delete):
+            for tgt in st.targets:
+                if isinstance(tgt, ast.Subscript):
+                    obj = self.eval(tgt.value, env)
+                    idx = self.eval(tgt.slice, env)
+                    try:
+                        del obj[idx]
+                    except (KeyError, IndexError, TypeError) as e:
+                        raise Raised(type(e).__name__, e.args)
+                elif isinstance(tgt, ast.Name):
+                    env.pop(tgt.id, None)
+                else:
+                    raise AnalysisError(f"{self.name}:{st.lineno}: del of an attribute is outside the subset")
         elif isinstance(st, ast.Try):
             if st.finalbody:
                 raise AnalysisError(f"{self.name}:{st.lineno}: try/finally is outside the subset")
@@ -528,7 +578,10 @@ class Interp:
             return ("patsub", obj)
         if isinstance(obj, dict) and a in ("get", "items", "keys", "values", "setdefault", "update", "pop"):
             return ("dictmethod", obj, a)
-        if isinstance(obj, list) and a in ("append", "extend", "index", "count"):
+        if isinstance(obj, list) and a in ("append", "extend", "index", "count", "insert", "pop", "sort", "reverse", "copy"):
+            return ("listmethod", obj, a)
+        if isinstance(obj, (set, frozenset)) and a in ("add", "update", "discard", "remove", "issuperset", "issubset",
+                                                       "isdisjoint", "union", "intersection", "difference", "copy"):
             return ("listmethod", obj, a)
         if isinstance(obj, (str, int, float, bool, type(None), list, tuple, dict)) and not hasattr(obj, a):
             raise Raised("AttributeError", (f"'{type(obj).__name__}' object has no attribute '{a}'",))
@@ -631,6 +684,8 @@ class Interp:
             return f(*args, **kwargs)
         if isinstance(f, ClassRef) and f.call is not None:
             return f.call(*args, **kwargs)
+        if isinstance(f, ModuleRef) and "__call__" in f.attrs:
+            return self.apply(f.attrs["__call__"], args, kwargs)
         if f is type and len(args) == 1:
             return type(args[0]) if not isinstance(args[0], (Record, ClassRef, ModuleRef)) else ClassRef("type")
         if isinstance(f, type) and f in (str, int, bool, float, list, tuple, set, dict):
@@ -752,6 +807,37 @@ class Interp:
             fn = args[0]
             return [self.apply(fn, list(xs), {}) for xs in zip(*[self.iterate(a) for a in args[1:]])]
         raise AnalysisError(f"{self.name}: builtin {name}")
+
+
+def _itertools_module(interp):
+    """itertools over evaluator values (everything is materialised into lists)."""
+    import itertools as _it
+
+    def chain(*its):
+        out = []
+        for x in its:
+            out.extend(interp.iterate(x))
+        return out
+
+    def from_iterable(xs):
+        out = []
+        for x in interp.iterate(xs):
+            out.extend(interp.iterate(x))
+        return out
+
+    def product(*its, repeat=1):
+        return [tuple(x) for x in _it.product(*[interp.iterate(i) for i in its], repeat=repeat)]
+
+    def islice(x, *a):
+        return list(_it.islice(interp.iterate(x), *a))
+
+    def zip_longest(*its, fillvalue=None):
+        return [tuple(x) for x in _it.zip_longest(*[interp.iterate(i) for i in its], fillvalue=fillvalue)]
+    return ModuleRef("itertools", attrs={
+        "chain": ModuleRef("itertools.chain", attrs={"__call__": ("host", chain), "from_iterable": ("host", from_iterable)}),
+        "product": ("host", product), "islice": ("host", islice), "zip_longest": ("host", zip_longest),
+        "count": ("host", lambda *a: _it.count(*a)),
+    })
 
 
 def _walk_own(fn):
